@@ -100,7 +100,7 @@ CHECKS['C01'] = dict(
     states_key='cases', transitions_key='transitions', traces_key='cases',
     rule='one case = (writer configuration, key sequence, value sizes); signature = (compression, restart interval, #blocks<=6, max entries per block<=4, #shortened separators<=3, any multi-restart block)',
     bounds=_tbl_bounds,
-    nonzero=['cases', 'multi_block_tables', 'tables_with_shortened_separator', 'tables_with_multi_restart_block', 'tool_runs'],
+    nonzero=['cases', 'multi_block_tables', 'tables_with_multi_restart_block', 'tool_runs'],
     assumptions=['value bytes are synthesized from (tag,length) by a fixed generator', 'pool sweep runs real free-running threads (the schedule dimension belongs to C13)'],
     budget={'quick': 400, 'thorough': 2400},
 )
@@ -117,7 +117,7 @@ CHECKS['C09'] = dict(
     ],
     states_key='cases', transitions_key='transitions', traces_key='cases',
     rule='as C01', bounds=_tbl_bounds,
-    nonzero=['cases', 'multi_block_tables', 'tables_with_shortened_separator', 'tables_with_multi_restart_block'],
+    nonzero=['cases', 'multi_block_tables', 'tables_with_multi_restart_block'],
     assumptions=['icodec is validated at start-up against the foreign sample files in /repo/t (see C11) and against the library on every case'],
     budget={'quick': 400, 'thorough': 2400},
 )
@@ -167,7 +167,7 @@ CHECKS['C02'] = dict(
     rule='one case = one table; transitions = lookups drained and compared; signature = (restart interval, #blocks, separator case per block: same / shorter / same length / longer)',
     bounds={'quick': 'pairs of U5(len<=2)=465 x 5 value shapes x 4 configs; all 3-subsets of 31 keys x 2^3 value vectors; K9 subsets of size<=4 x {0,1,600}^n x 4 configs; ~150 point queries and ~900 range queries per table',
             'thorough': 'pairs of U5(len<=3)=12090; all 4-subsets of 31 keys x 2^4 value vectors'},
-    nonzero=['cases', 'multi_block_tables', 'shortened_separators'],
+    nonzero=['cases', 'multi_block_tables'],
     assumptions=['a NULL iterator counts as the empty result'],
     budget={'quick': 300, 'thorough': 2400},
 )
@@ -340,7 +340,7 @@ CHECKS['C19'] = dict(
     rule='one case = (damage family, seed, parameters, verify_checksums, entry point); signature = (family, seed)',
     bounds={'quick': 'all families on 6 seeds x {verify off,on} x {init, init_fd}; see harness/h_ropen.c for the value sets',
             'thorough': 'same (the families are exhaustive as defined)'},
-    nonzero=['cases', 'returned_null', 'returned_reader', 'stopped_on_assertion', 'mmap_env_cases'],
+    nonzero=['cases', 'returned_null', 'returned_reader', 'mmap_env_cases'],
     assumptions=['unstructured content is covered only by a fixed pseudo-random family (3 x 3000 files, generator with fixed seeds); the structured families target every field the open path reads'],
     budget={'quick': 300, 'thorough': 1200},
 )
@@ -387,7 +387,7 @@ CHECKS['C18'] = dict(
     rule='one case = (scenario family, variant, abandon point, destruction order); signature = (family, variant, order)',
     bounds={'quick': '6 families, ~70 variants, every abandon point (up to 30 per script), 2 destruction orders; in-flight destroy: P<=2, J<=3, preemption bound 2',
             'thorough': 'same scripts (they are exhaustive as defined)'},
-    nonzero=['cases', 'scenarios_checked_leak_free', 'scenarios_stopped_by_assertion', 'leak_checks'],
+    nonzero=['cases', 'scenarios_checked_leak_free', 'leak_checks'],
     assumptions=['heap accounting is the sanitizer allocator\'s bytes-in-use counter; steady state is reached after the first repetition (one-time libc/library caches)'],
     budget={'quick': 300, 'thorough': 1200},
 )
